@@ -708,7 +708,7 @@ func genC12Base(r *Rng) *Scenario {
 		if d == 0 {
 			switch kind {
 			case 0:
-				op = Op{Kind: "publish", QoS: qos, Topic: "a/x", Token: "m1", Retain: r.chance(0.3)}
+				op = Op{Kind: "publish", QoS: qos, Topic: "a/x", Token: "m1", Retain: r.chance(0.3), DupIn: r.chance(0.15)}
 				if r.chance(0.2) {
 					op.PresetID = uint16(r.between(1, 65535))
 				}
